@@ -244,3 +244,573 @@ def _refine(lo, hi, op, c, truth):
     elif op == "Eq":
         lo, hi = max(lo, c), min(hi, c)
     return lo, hi
+
+
+# =========================================================================== C09 / C13
+from vlib.flow import path_summaries, relation_of_label   # noqa: E402
+
+ENOBUFS = 105
+
+
+def _result_paths(f, call_block):
+    """per return path after a libc transmission call: relations of its result to 0, constructors, calls"""
+    t = f.term(call_block)
+    tr = Tracer(f)
+
+    def is_res(op):
+        return any(r.kind == "call" and r.block == call_block for r in tr.roots_of_operand(op))
+
+    def edge_fact(b, s, labs):
+        for lab in labs:
+            rel = relation_of_label(f, lab)
+            if rel:
+                a, c, rs = rel
+                if is_res(a) and op_const(c) == 0:
+                    yield ("rel", tuple(sorted(rs)))
+                elif is_res(c) and op_const(a) == 0:
+                    yield ("rel", tuple(sorted({"lt": "gt", "gt": "lt", "eq": "eq"}[x] for x in rs)))
+
+    def block_fact(b):
+        for st in f.stmts(b):
+            if st["s"] == "assign" and st["rv"]["r"] == "agg" and st["lhs"]["l"] == 0:
+                yield ("ret", st["rv"]["kind"].get("variant"))
+        tt = f.term(b)
+        if tt["t"] == "call":
+            yield ("call", strip_generics(callee_name(tt)))
+    return path_summaries(f, edge_fact, block_fact, start=t["to"])
+
+
+def rule_send_check(ctx, cfg, F):
+    R = ctx.rule("SEND-CHECK", "in each function that calls sendmsg / send the Ok return is reachable only on the edge result > 0, and every other edge returns Err(UnixError::last())")
+    n = 0
+    for f in [first_fragment_fn(F), followup_fn(F)]:
+        if f is None:
+            R.violate("anchor-missing:transmitter", "sendmsg / send wrapper not found", config=cfg)
+            continue
+        for b, t in f.calls():
+            if strip_generics(callee_name(t)) not in ("libc::sendmsg", "libc::send"):
+                continue
+            n += 1
+            bad = []
+            saw_gt = False
+            for facts, rb, path in _result_paths(f, b):
+                rels = [x[1] for x in facts if x[0] == "rel"]
+                rets = {x[1] for x in facts if x[0] == "ret"}
+                calls = {x[1] for x in facts if x[0] == "call"}
+                positive = any(r == ("gt",) for r in rels)
+                if positive:
+                    saw_gt = True
+                if "Ok" in rets and not positive:
+                    bad.append("Ok is returned on an edge that does not establish result > 0 (relations seen: %s)" % rels)
+                if not positive and "Err" not in rets:
+                    bad.append("a non-positive result does not return Err")
+                if not positive and "Err" in rets and not any(c.endswith("UnixError::last") for c in calls):
+                    bad.append("the failure edge does not carry errno (UnixError::last)")
+            if not saw_gt:
+                bad.append("the result is never tested for > 0")
+            if bad:
+                R.violate("%s:result-check" % f.path, "%s: %s" % (f.path, bad[0]), f.path, f.loc(b), config=cfg)
+            else:
+                R.ok("%s: Ok only when the transmission result > 0, otherwise Err(last)" % f.path, f.loc(b), cfg)
+    R.count("transmission_calls[%s]" % cfg, n)
+
+
+def _fallible_calls(F, f):
+    """blocks of the calls in send whose Err must be propagated or retried"""
+    names = {strip_generics(first_fragment_fn(F).path): "first", strip_generics(followup_fn(F).path): "followup"}
+    out = {}
+    for b, t in f.calls():
+        nm = strip_generics(callee_name(t))
+        if nm in names:
+            out[b] = names[nm]
+        elif nm.endswith("::channel") and nm.startswith("platform::"):
+            out[b] = "channel"
+    return out
+
+
+def explore_send(F, f):
+    """one exploration of the platform send: error propagation, retry guard, position discipline"""
+    tr = Tracer(f)
+    ex = Explorer(f)
+    fall = _fallible_calls(F, f)
+    # the downsize function: callee whose first argument is &mut usize and whose Result gates the retry
+    downsize_blocks = {b for b, t in f.calls() if t["args"] and op_local(t["args"][0]) is not None and f.local_ty(op_local(t["args"][0])).startswith("&mut usize")
+                       and strip_generics(callee_name(t)).startswith("platform::")}
+    # loop position: the local compared with len(data) in a loop condition
+    pos = _position_local(f, tr)
+    problems = {}
+    stats = {"err_edges": 0, "retry_edges": 0, "ok_returns": 0}
+
+    def res_call_of(op):
+        for r in tr.roots_of_operand(op):
+            if r.kind == "call" and r.block in fall:
+                return r.block
+        return None
+
+    def res_calls_of(op):
+        return {r.block for r in tr.roots_of_operand(op) if r.kind == "call" and r.block in fall}
+
+    # state: (pending call block or None, enobufs, downsized, attempted_since_err)
+    def step(b, st, env):
+        pend, enob, down = st
+        t = f.term(b)
+        if pend is not None and pos is not None:
+            for s in f.stmts(b):
+                if s["s"] == "assign" and not s["lhs"].get("p") and s["lhs"]["l"] == pos:
+                    problems.setdefault(("RETRY-POS", "position-advances-after-error"), b)
+        if t["t"] == "call":
+            if b in fall and pend is not None:
+                # the path goes on transmitting after an error: only legal as the guarded retry
+                if not (enob is True and down is True):
+                    problems.setdefault(("SEND-PROP", "continues-after-error", "%s->%s enobufs=%s downsized=%s" % (fall[pend], fall[b], enob, down)), b)
+                else:
+                    stats["retry_edges"] += 1
+                pend, enob, down = None, None, None
+        elif t["t"] == "return":
+            okc = None
+            # what does _0 hold?
+            if pend is not None:
+                roots = tr.roots(0)
+                ok_ctor = any(r.kind == "agg" and r.id.endswith("Result::Ok") for r in roots)
+                return ("RET", pend, "err-pending")
+        return (pend, enob, down)
+
+    def edge(b, s, labs, st, env):
+        if st and st[0] == "RET":
+            return st
+        pend, enob, down = st
+        for lab in labs:
+            if lab["kind"] in ("variant", "variant_not") and lab.get("adt") in ("std::result::Result", "std::ops::ControlFlow") and lab.get("variant"):
+                src = None
+                pl = lab["place"]
+                src = res_call_of({"k": "cp", "pl": {"l": pl["l"]}})
+                if src is not None and lab["variant"] in ("Err", "Break"):
+                    stats["err_edges"] += 1
+                    pend, enob, down = src, None, None
+                # result of downsize
+                dsrc = [r for r in tr.roots(pl["l"]) if r.kind == "call" and r.block in downsize_blocks]
+                if dsrc and pend is not None:
+                    down = lab["variant"] == "Ok"
+            elif lab["kind"] == "pred" and lab["pred"] in ("is_ok", "is_err") and pend is not None:
+                dsrc = [r for r in tr.roots_of_operand(lab["arg"]) if r.kind == "call" and r.block in downsize_blocks]
+                if dsrc:
+                    down = lab["truth"] if lab["pred"] == "is_ok" else not lab["truth"]
+            elif lab["kind"] == "val" and pend is not None:
+                # switch on the errno payload
+                names = [e.get("n") for e in lab["place"].get("p", []) if isinstance(e, dict) and "v" in e]
+                if "Errno" in names:
+                    enob = lab["value"] == ENOBUFS
+            elif lab["kind"] == "val_not" and pend is not None:
+                names = [e.get("n") for e in lab["place"].get("p", []) if isinstance(e, dict) and "v" in e]
+                if "Errno" in names and ENOBUFS in lab["not"]:
+                    enob = False
+            elif lab["kind"] in ("variant", "variant_not") and lab.get("adt", "").endswith("UnixError") and pend is not None:
+                if lab.get("variant") and "Errno" not in lab["variant"].split("|"):
+                    enob = False
+            elif lab["kind"] == "cmp" and lab["op"] in ("Eq", "Ne") and pend is not None:
+                c = op_const(lab["b"]) if op_const(lab["b"]) is not None else op_const(lab["a"])
+                if c == ENOBUFS:
+                    enob = lab["truth"] if lab["op"] == "Eq" else not lab["truth"]
+        return (pend, enob, down)
+
+    returns = []
+
+    def at_return(b, st, path):
+        if st and st[0] == "RET":
+            returns.append((st, path))
+        else:
+            stats["ok_returns"] += 1
+    states = ex.walk(0, (None, None, None), step, at_return=at_return, edge=edge)
+    # returns with a pending error must return that error
+    for st, path in returns:
+        pend = st[1]
+        rb = path[-1]
+        # find what was last stored into _0 on this path
+        last = None
+        for b in path:
+            for s_ in f.stmts(b):
+                if s_["s"] == "assign" and s_["lhs"]["l"] == 0 and not s_["lhs"].get("p"):
+                    last = ("agg", s_["rv"]) if s_["rv"]["r"] == "agg" else ("other", s_["rv"])
+            t = f.term(b)
+            if t["t"] == "call" and t["dest"]["l"] == 0:
+                last = ("call", t)
+        ok = False
+        # the caller must see an error: the pending one, or another one raised on the way out
+        if last and last[0] == "agg" and last[1]["kind"].get("variant") == "Err":
+            ok = True
+        elif last and last[0] == "call" and "from_residual" in callee_name(last[1]):
+            ok = True
+        if not ok:
+            problems.setdefault(("SEND-PROP", "error-not-returned", fall[pend]), rb)
+    return problems, stats, states, fall, pos, downsize_blocks
+
+
+def _position_local(f, tr):
+    """loop position variable: multi-def usize local compared (Lt) with len(<param slice>) in a loop header region"""
+    for h in f.loop_headers():
+        body = f.natural_loop(h)
+        for b in sorted(body):
+            t = f.term(b)
+            if t["t"] != "switch":
+                continue
+            for s in f.succ(b):
+                for lab in edge_label(f, b, s):
+                    if lab["kind"] == "cmp" and lab["op"] == "Lt":
+                        rb = tr.roots_of_operand(lab["b"])
+                        if any(r.kind == "call" and r.id == "core::slice::len" for r in rb):
+                            for r in tr.roots_of_operand(lab["a"]):
+                                pass
+                            l = op_local(lab["a"])
+                            # resolve copies to the user variable
+                            ds = [d for d in f.defs().get(l, []) if d[1] is not None]
+                            if len(ds) == 1 and ds[0][2]["rv"]["r"] == "use":
+                                src = op_local(ds[0][2]["rv"]["a"][0])
+                                if src is not None and len(f.defs().get(src, [])) >= 2:
+                                    return src
+    return None
+
+
+def rules_send_flow(ctx, cfg, F, want):
+    """want in {'C09','C13'}"""
+    f = send_fn(F)
+    if f is None:
+        ctx.rule("SEND-PROP").violate("anchor-missing:send", "platform send not found", config=cfg)
+        return
+    problems, stats, states, fall, pos, dblocks = explore_send(F, f)
+    if want == "C09":
+        R = ctx.rule("SEND-PROP", "in the platform send every Err of a transmission (or of creating the per-message channel) is returned to the caller as that "
+                     "error, unless it is the guarded ENOBUFS retry; no Err edge reaches Ok")
+        bad = [k for k in problems if k[0] == "SEND-PROP"]
+        for k in sorted(bad, key=repr):
+            R.violate("%s:%s:%s" % (f.path, k[1], k[2].split(" ")[0]), "%s: %s (%s)" % (f.path, k[1].replace("-", " "), k[2]), f.path, f.loc(problems[k]), config=cfg)
+        if not bad:
+            R.ok("%s: %d fallible calls, %d Err edges all returned or retried under the guard (%d states)" % (f.path, len(fall), stats["err_edges"], states), f.loc(0), cfg)
+        R.count("fallible_calls[%s]" % cfg, len(fall))
+    else:
+        Rg = ctx.rule("RETRY-GUARD", "a transmission is re-attempted after an error only when the error is Errno(ENOBUFS) and downsize() returned Ok; every other error edge returns")
+        Rp = ctx.rule("RETRY-POS", "the byte position is assigned only on the Ok edge of the iteration's transmission; no path assigns it between an Err edge and the retry")
+        bad = [k for k in problems if k[0] == "SEND-PROP" and k[1] == "continues-after-error"]
+        for k in sorted(bad, key=repr):
+            Rg.violate("%s:retry-without-guard:%s" % (f.path, k[2].split(" ")[0]), "a transmission is re-attempted after an error without the ENOBUFS + downsize guard (%s)" % k[2], f.path, f.loc(problems[k]), config=cfg)
+        if not bad:
+            Rg.ok("%s: %d retry edges, all under ENOBUFS && downsize().is_ok()" % (f.path, stats["retry_edges"]), f.loc(0), cfg)
+        Rg.count("retry_edges[%s]" % cfg, stats["retry_edges"])
+        badp = [k for k in problems if k[0] == "RETRY-POS"]
+        if pos is None:
+            Rp.violate("anchor-missing:position-variable", "no loop position variable compared with len(data) found", f.path, config=cfg)
+        for k in badp:
+            Rp.violate("%s:%s" % (f.path, k[1]), "the byte position is advanced on a path that follows a failed transmission: bytes would be skipped", f.path, f.loc(problems[k]), config=cfg)
+        if pos is not None and not badp:
+            Rp.ok("%s: position `%s` is never assigned while an error is pending" % (f.path, f.lname(pos)), f.loc(0), cfg)
+
+
+def rule_retry_shrink(ctx, cfg, F):
+    R = ctx.rule("RETRY-SHRINK", "the send-buffer estimate is written only by its initialisation and through the &mut handed to downsize(); inside downsize every store is "
+                 "`x / c` with constant c >= 2 and x the old estimate or the size just tried, and Ok is returned only on the `sent > threshold` edge")
+    f = send_fn(F)
+    if f is None:
+        return
+    tr = Tracer(f)
+    dcalls = [(b, t) for b, t in f.calls() if t["args"] and op_local(t["args"][0]) is not None and f.local_ty(op_local(t["args"][0])).startswith("&mut usize")
+              and strip_generics(callee_name(t)).startswith("platform::")]
+    R.count("downsize_calls[%s]" % cfg, len(dcalls))
+    if not dcalls:
+        R.violate("anchor-missing:downsize", "no call passes &mut usize to a crate function in send", f.path, config=cfg)
+        return
+    est = set()
+    for b, t in dcalls:
+        est.add(_root_local(f, tr, t["args"][0]))
+    if len(est) != 1:
+        R.violate("%s:estimate-not-unique" % f.path, "several estimate variables: %s" % sorted(est), f.path, config=cfg)
+        return
+    E = next(iter(est))
+    defs = [d for d in f.defs().get(E, []) if not f.is_cleanup(d[0])]
+    if len(defs) != 1:
+        R.violate("%s:estimate-written-directly" % f.path, "the estimate `%s` is assigned at %d sites in send (expected: initialisation only)" % (f.lname(E), len(defs)), f.path, f.loc(defs[-1][0]), config=cfg)
+    else:
+        R.ok("estimate `%s` has a single direct definition (its initialisation)" % f.lname(E), f.loc(defs[0][0]), cfg)
+    # other &mut borrows of E must only flow to downsize
+    g = F.fns.get(dcalls[0][1].get("resolved") or dcalls[0][1].get("callee"))
+    if g is None:
+        R.violate("anchor-missing:downsize-body", "downsize body not found", config=cfg)
+        return
+    ex = Expr(g)
+    stores = []
+    for b in sorted(g.live_blocks()):
+        for si, st in enumerate(g.stmts(b)):
+            if st["s"] == "assign" and st["lhs"]["l"] == 1 and st["lhs"].get("p") == ["*"]:
+                stores.append((b, si, st))
+    ok = bool(stores)
+    for b, si, st in stores:
+        rv = st["rv"]
+        good = rv["r"] == "bin" and rv["op"] == "Div" and (op_const(rv["a"][1]) or 0) >= 2
+        if good:
+            a = rv["a"][0]
+            pl = op_place(a)
+            src_ok = pl is not None and ((pl["l"] == 1 and pl.get("p") == ["*"]) or any(r.kind == "param" and r.id == 2 for r in Tracer(g).roots_of_operand(a)))
+            good = src_ok
+        if not good:
+            ok = False
+            R.violate("%s:store-not-shrinking" % g.path, "a store to the estimate in %s is not of the form old/c or sent/c with c >= 2: a retry could use the same or a larger size" % g.path, g.path, g.loc(b, si), config=cfg)
+    # Ok only on sent > threshold
+    okpaths = []
+
+    def edge_fact(b, s, labs):
+        for lab in labs:
+            if lab["kind"] == "cmp" and any(r.kind == "param" and r.id == 2 for r in Tracer(g).roots_of_operand(lab["a"])) and op_const(lab["b"]) is not None:
+                rel = relation_of_label(g, lab)
+                yield ("sent", tuple(sorted(rel[2])), op_const(lab["b"]))
+
+    def block_fact(b):
+        for st in g.stmts(b):
+            if st["s"] == "assign" and st["lhs"]["l"] == 0 and st["rv"]["r"] == "agg":
+                yield ("ret", st["rv"]["kind"].get("variant"))
+    for facts, rb, path in path_summaries(g, edge_fact, block_fact):
+        rets = {x[1] for x in facts if x[0] == "ret"}
+        gt = any(x[0] == "sent" and x[1] == ("gt",) and x[2] > 0 for x in facts)
+        if "Ok" in rets and not gt:
+            ok = False
+            R.violate("%s:ok-without-threshold" % g.path, "%s returns Ok on a path that does not establish sent > threshold: tiny packets would be retried forever" % g.path, g.path, g.loc(rb), config=cfg)
+    if ok:
+        R.ok("%s: %d stores, all shrinking; Ok only above the threshold" % (g.path, len(stores)), g.loc(0), cfg)
+
+
+def rule_retry_fds(ctx, cfg, F):
+    R = ctx.rule("RETRY-FDS", "every call of the first-fragment transmitter passes the whole descriptor list (RangeFull), so a retried first fragment carries all attachments")
+    f, ff = send_fn(F), first_fragment_fn(F)
+    if not f or not ff:
+        return
+    ffname = strip_generics(ff.path)
+    n = 0
+    for b, t in f.calls():
+        if strip_generics(callee_name(t)) != ffname:
+            continue
+        n += 1
+        arg = next((a for i, a in enumerate(t["args"]) if ff.local_ty(i + 1) == "&[i32]"), None)
+        blk = _def_call(f, arg)
+        if blk is not None and any("RangeFull" in g for g in f.term(blk).get("generics", [])) and "Vec<i32>" in f.local_ty(_root_local(f, Tracer(f), arg)):
+            R.ok("first-fragment call passes fds[..]", f.loc(b), cfg)
+        else:
+            R.violate("%s:partial-descriptor-list:%s" % (f.path, _site_role(f, b)), "a first-fragment transmission does not pass the whole descriptor list", f.path, f.loc(b), config=cfg)
+    R.count("first_fragment_sites[%s]" % cfg, n)
+
+
+def _def_call(f, operand):
+    l = op_local(operand) if operand else None
+    seen = set()
+    while l is not None and l not in seen:
+        seen.add(l)
+        ds = [d for d in f.defs().get(l, []) if not f.is_cleanup(d[0])]
+        if len(ds) != 1:
+            return None
+        b, si, node = ds[0]
+        if si is None:
+            return b
+        rv = node["rv"]
+        if rv["r"] in ("use", "cast"):
+            l = op_local(rv["a"][0])
+        elif rv["r"] in ("ref", "raw"):
+            l = rv["pl"]["l"]
+        else:
+            return None
+    return None
+
+
+# =========================================================================== C02 / C04 / C01 (sender side)
+
+def rule_frag_route(ctx, cfg, F):
+    R = ctx.rule("FRAG-ROUTE", "follow-up fragments are transmitted only on the sender half of a socketpair created by channel() in the same invocation of send, never on "
+                 "the shared channel descriptor; the receiver half of that same pair is the descriptor appended to the list before the fragmented first-fragment call; "
+                 "the receiving side reads follow-ups only from the descriptor popped from this message's attachments")
+    f, fu, ff = send_fn(F), followup_fn(F), first_fragment_fn(F)
+    if not f or not fu or not ff:
+        R.violate("anchor-missing:send-functions", "send / follow-up / first-fragment functions not found", config=cfg)
+        return
+    tr = Tracer(f)
+    funame = strip_generics(fu.path)
+    n = 0
+    chan_blocks = {b for b, t in f.calls() if strip_generics(callee_name(t)).endswith("::channel") and strip_generics(callee_name(t)).startswith("platform::")}
+    R.count("channel_calls[%s]" % cfg, len(chan_blocks))
+    pair_block = None
+    for b, t in f.calls():
+        if strip_generics(callee_name(t)) != funame:
+            continue
+        n += 1
+        roots = tr.roots_of_operand(t["args"][0])
+        srcs = {r.block for r in roots if r.kind == "call" and r.block in chan_blocks}
+        other = [r for r in roots if not (r.kind == "call" and r.block in chan_blocks)]
+        halves = {r.field_idx()[1] if len(r.field_idx()) > 1 else None for r in roots if r.kind == "call" and r.block in chan_blocks}
+        if srcs and not other and halves == {0}:
+            pair_block = next(iter(srcs))
+            R.ok("follow-up transmitter uses the sender half of the channel() pair created in this call", f.loc(b), cfg)
+        else:
+            R.violate("%s:followup-on-shared-socket" % f.path, "a follow-up fragment is transmitted on a descriptor that is not the sender half of this message's own socketpair (%s): "
+                      "fragments of concurrent messages can interleave on the shared socket" % sorted(map(repr, roots))[:2], f.path, f.loc(b), config=cfg)
+    R.count("followup_sites[%s]" % cfg, n)
+    # direct libc::send inside the follow-up transmitter uses its parameter
+    trf = Tracer(fu)
+    for b, t in fu.calls_to("libc::send"):
+        if any(r.kind == "param" and r.id == 1 for r in trf.roots_of_operand(t["args"][0])):
+            R.ok("libc::send in %s writes to its descriptor parameter" % fu.path, fu.loc(b), cfg)
+        else:
+            R.violate("%s:send-fd-not-parameter" % fu.path, "libc::send does not use the function's descriptor parameter", fu.path, fu.loc(b), config=cfg)
+    # the receiver half is pushed onto the descriptor list and that push dominates the fragmented first-fragment call
+    if pair_block is not None:
+        pushes = []
+        for b, t in f.calls_to("std::vec::Vec::push"):
+            for r in tr.roots_of_operand(t["args"][1]):
+                if r.kind == "call" and r.block == pair_block and (r.field_idx()[1:2] == (1,)):
+                    pushes.append(b)
+        ffname = strip_generics(ff.path)
+        frag_sites = [b for b, t in f.calls() if strip_generics(callee_name(t)) == ffname and f.dominates(pair_block, b)]
+        if pushes and frag_sites and all(any(f.dominates(p, s) for p in pushes) for s in frag_sites):
+            R.ok("the receiver half of the same pair is appended to the descriptor list before the fragmented first-fragment call", f.loc(pushes[0]), cfg)
+        else:
+            R.violate("%s:dedicated-receiver-not-attached" % f.path, "the receiver half of the per-message pair is not appended to the descriptor list before the fragmented first fragment is sent", f.path, f.loc(pair_block), config=cfg)
+    # receiving side
+    g = next((x for x in F.fns.values() if any(strip_generics(callee_name(t)) == "libc::recv" for _, t in x.calls())), None)
+    if g is None:
+        R.violate("anchor-missing:reassembly", "no function calls libc::recv", config=cfg)
+        return
+    trg = Tracer(g)
+    for b, t in g.calls_to("libc::recv"):
+        roots = trg.roots_of_operand(t["args"][0])
+        via_pop = any(r.kind == "call" and r.id.endswith("::to_receiver") for r in roots)
+        from_param = any(r.kind == "param" for r in roots)
+        popped = False
+        for r in roots:
+            if r.kind == "call" and r.id.endswith("::to_receiver"):
+                tt = g.term(r.block)
+                popped = any(x.kind == "call" and x.id == "std::vec::Vec::pop" for x in trg.roots_of_operand(tt["args"][0]))
+        if via_pop and popped and not from_param:
+            R.ok("follow-up reads use the descriptor popped from this message's attachment list", g.loc(b), cfg)
+        else:
+            R.violate("%s:followup-read-from-shared-socket" % g.path, "follow-up fragments are read from %s, not from the descriptor popped from this message's attachments" % sorted(map(repr, roots))[:2], g.path, g.loc(b), config=cfg)
+    R.count("followup_reads[%s]" % cfg, len(list(g.calls_to("libc::recv"))))
+
+
+def rule_dedicated_last(ctx, cfg, F):
+    R = ctx.rule("DEDICATED-LAST", "sender: nothing is appended to the descriptor list after the per-message receiver; receiver: the per-message receiver is taken with Vec::pop "
+                 "(last element) after the in-order split loop; the split loop only appends (no insert/remove/reverse)")
+    f = send_fn(F)
+    if f:
+        tr = Tracer(f)
+        chan_blocks = {b for b, t in f.calls() if strip_generics(callee_name(t)).endswith("::channel") and strip_generics(callee_name(t)).startswith("platform::")}
+        ded = [b for b, t in f.calls_to("std::vec::Vec::push") if any(r.kind == "call" and r.block in chan_blocks for r in tr.roots_of_operand(t["args"][1]))]
+        if not ded:
+            R.violate("%s:no-dedicated-push" % f.path, "the per-message receiver is never appended to the descriptor list", f.path, config=cfg)
+        for d in ded:
+            V = _root_local(f, tr, f.term(d)["args"][0])
+            later = [b for b, t in f.calls() if strip_generics(callee_name(t)) in ("std::vec::Vec::push", "std::vec::Vec::insert", "std::vec::Vec::extend", "std::vec::Vec::swap", "std::vec::Vec::reverse", "core::slice::reverse", "core::slice::swap")
+                     and _root_local(f, tr, t["args"][0]) == V and b != d and b in f.reachable(f.term(d)["to"])]
+            inserts = [b for b, t in f.calls() if strip_generics(callee_name(t)) in ("std::vec::Vec::insert", "core::slice::reverse", "core::slice::swap", "core::slice::sort", "std::vec::Vec::swap_remove", "std::vec::Vec::remove") and _root_local(f, tr, t["args"][0]) == V]
+            if later or inserts:
+                R.violate("%s:descriptor-order-disturbed" % f.path, "the descriptor list is modified after the per-message receiver was appended, or reordered: the receiver would pop the wrong descriptor", f.path, f.loc((later or inserts)[0]), config=cfg)
+            else:
+                R.ok("sender: the per-message receiver is the last element of the descriptor list", f.loc(d), cfg)
+        R.count("dedicated_pushes[%s]" % cfg, len(ded))
+    g = next((x for x in F.fns.values() if any(strip_generics(callee_name(t)) == "libc::recv" for _, t in x.calls())), None)
+    if g:
+        trg = Tracer(g)
+        pops = [(b, t) for b, t in g.calls_to("std::vec::Vec::pop")]
+        R.count("pops[%s]" % cfg, len(pops))
+        for b, t in pops:
+            V = _root_local(g, trg, t["args"][0])
+            pushes = [pb for pb, pt in g.calls_to("std::vec::Vec::push") if _root_local(g, trg, pt["args"][0]) == V]
+            disturb = [pb for pb, pt in g.calls() if strip_generics(callee_name(pt)) in ("std::vec::Vec::insert", "std::vec::Vec::remove", "std::vec::Vec::swap_remove", "core::slice::reverse", "core::slice::swap", "std::vec::Vec::drain", "std::vec::Vec::truncate")
+                       and _root_local(g, trg, pt["args"][0]) == V]
+            in_loop = any(b in g.natural_loop(h) and any(p in g.natural_loop(h) for p in pushes) for h in g.loop_headers())
+            after = all(b in g.reachable(g.term(p)["to"]) for p in pushes)
+            if pushes and not disturb and not in_loop and after:
+                R.ok("receiver: per-message receiver popped after the split loop, list only appended to", g.loc(b), cfg)
+            else:
+                R.violate("%s:pop-order" % g.path, "the per-message receiver is not taken as the last element after an append-only split loop", g.path, g.loc(b), config=cfg)
+
+
+def rule_one_packet(ctx, cfg, F):
+    R = ctx.rule("ONE-PACKET", "the first-fragment transmitter performs exactly one sendmsg and no other transmission; its iovec carries the header (the total-length parameter) and the "
+                 "data parameter together, and the control buffer is filled from the whole descriptor slice: header, data and rights leave in one system call")
+    ff = first_fragment_fn(F)
+    if not ff:
+        R.violate("anchor-missing:sendmsg", "no unique function calls sendmsg", config=cfg)
+        return
+    tr = Tracer(ff)
+    tx = [(b, t) for b, t in ff.calls() if strip_generics(callee_name(t)) in ("libc::sendmsg", "libc::send", "libc::write", "libc::sendto", "libc::writev")]
+    R.count("transmissions[%s]" % cfg, len(tx))
+    if len(tx) != 1:
+        R.violate("%s:transmission-count" % ff.path, "%d transmission calls in the first-fragment transmitter (expected exactly one sendmsg)" % len(tx), ff.path, ff.loc(0), config=cfg)
+        return
+    # iovec aggregates
+    iov = []
+    for b in sorted(ff.live_blocks()):
+        for si, st in enumerate(ff.stmts(b)):
+            if st["s"] == "assign" and st["rv"]["r"] == "agg" and st["rv"]["kind"].get("adt") == "libc::iovec":
+                iov.append((b, si, st))
+    bases = []
+    for b, si, st in iov:
+        rs = tr.roots_of_operand(st["rv"]["a"][0])
+        bases.append({r.id for r in rs if r.kind == "param"} | {("call", r.id) for r in rs if r.kind == "call"})
+    params = set()
+    for s_ in bases:
+        params |= {x for x in s_ if isinstance(x, int)}
+    usize_params = [i for i in range(1, ff.argc + 1) if ff.local_ty(i) == "usize"]
+    data_params = [i for i in range(1, ff.argc + 1) if ff.local_ty(i) == "&[u8]"]
+    if len(iov) == 2 and usize_params and data_params and usize_params[0] in params and data_params[0] in params:
+        R.ok("one sendmsg; iovec = [header (parameter %d), data (parameter %d)]" % (usize_params[0], data_params[0]), ff.loc(tx[0][0]), cfg)
+    else:
+        R.violate("%s:iovec-shape" % ff.path, "the iovec of the first fragment does not carry the total-length parameter and the data parameter together (bases: %s)" % bases, ff.path, ff.loc(tx[0][0]), config=cfg)
+    # the msghdr passed to sendmsg is built from that iovec array
+    mh = tr.roots_of_operand(tx[0][1]["args"][1])
+    if any(r.kind == "call" and r.id.endswith("new_msghdr") for r in mh):
+        R.ok("sendmsg's msghdr comes from new_msghdr(iovec, control buffer)", ff.loc(tx[0][0]), cfg)
+    else:
+        R.violate("%s:msghdr-origin" % ff.path, "sendmsg's msghdr is not the one built from the iovec array", ff.path, ff.loc(tx[0][0]), config=cfg)
+    # descriptors: copy_nonoverlapping(fds.as_ptr(), CMSG_DATA(..), fds.len())
+    cps = list(ff.calls_to("std::ptr::copy_nonoverlapping"))
+    fd_params = [i for i in range(1, ff.argc + 1) if ff.local_ty(i) == "&[i32]"]
+    okc = False
+    for b, t in cps:
+        src = any(r.kind == "param" and r.id in fd_params for r in tr.roots_of_operand(t["args"][0]))
+        dst = any(r.kind == "call" and r.id.endswith("CMSG_DATA") for r in tr.roots_of_operand(t["args"][1]))
+        cnt = any(r.kind == "call" and r.id == "core::slice::len" for r in tr.roots_of_operand(t["args"][2]))
+        if src and dst and cnt:
+            lb = [r.block for r in tr.roots_of_operand(t["args"][2]) if r.kind == "call" and r.id == "core::slice::len"][0]
+            okc = any(r.kind == "param" and r.id in fd_params for r in tr.roots_of_operand(ff.term(lb)["args"][0]))
+    if okc:
+        R.ok("control buffer receives all fds.len() descriptors of the slice parameter", ff.loc(cps[0][0]), cfg)
+    else:
+        R.violate("%s:control-data-shape" % ff.path, "the control message is not filled with all descriptors of the slice parameter", ff.path, ff.loc(0), config=cfg)
+
+
+def rule_inproc_one_push(ctx, cfg, F):
+    R = ctx.rule("ONE-QUEUE-PUSH", "in-process send performs exactly one crossbeam send of one message aggregate built from all three parameters on every normal path")
+    f = F.fns.get("platform::inprocess::OsIpcSender::send")
+    if not f:
+        R.violate("anchor-missing:inprocess-send", "in-process OsIpcSender::send not found", config=cfg)
+        return
+    tr = Tracer(f)
+    sends = [(b, t) for b, t in f.calls_to("crossbeam_channel::Sender::send")]
+    R.count("queue_pushes[%s]" % cfg, len(sends))
+    if len(sends) != 1 or not f.all_paths_pass(0, [sends[0][0]])[0]:
+        R.violate("%s:push-count" % f.path, "not exactly one queue push on every path (%d sites)" % len(sends), f.path, f.loc(0), config=cfg)
+        return
+    b, t = sends[0]
+    ok = True
+    params = set()
+    for i in range(3):
+        rs = tr.roots_of_operand(t["args"][1], (("f", i, ""),))
+        params |= {r.id for r in rs if r.kind == "param"}
+        if i == 0:
+            # payload = to_vec(whole data parameter)
+            calls = [r for r in rs if r.kind == "call"]
+            if not (calls and all(r.id in ("std::slice::to_vec", "core::slice::to_vec") for r in calls)):
+                ok = False
+            for r in calls:
+                a = f.term(r.block)["args"][0]
+                if not any(x.kind == "param" and x.id == 2 and not x.path for x in tr.roots_of_operand(a)):
+                    ok = False
+                params.add(2)
+    if ok and {2, 3, 4} <= params:
+        R.ok("one push of ChannelMessage(data.to_vec(), ports, regions)", f.loc(b), cfg)
+    else:
+        R.violate("%s:message-shape" % f.path, "the queued message is not built from the whole data slice and both attachment lists (parameters seen: %s)" % sorted(params), f.path, f.loc(b), config=cfg)
